@@ -150,14 +150,34 @@ def gen_solver_plan(seed, tier, prop, knobs=None):
             if what == 'limits':
                 ops.append({'op': 'set', 'what': 'limits', 'arg': gen_limits(rng, k, solver, dim)})
             elif what == 'penalty':
-                ops.append({'op': 'set', 'what': 'penalty', 'arg': gen.gen_penalty(rng, dim) if rng.random() < 0.8 else None})
+                pa = gen.gen_penalty(rng, dim) if rng.random() < 0.8 else None
+                if pa is not None and rng.random() < 0.3:
+                    ops.append({'op': 'step', 'n': rng.randint(1, 3), 'penalty_kw': pa})
+                else:
+                    ops.append({'op': 'set', 'what': 'penalty', 'arg': pa})
             elif what == 'constraint':
                 b = (bounds['lo'], bounds['hi']) if bounds else None
                 con = gen.gen_constraint(rng, dim, b, forms=k['constraint_forms']) if rng.random() < 0.8 else None
                 if gen.compatible(con, b):
-                    ops.append({'op': 'set', 'what': 'constraint', 'arg': con})
+                    if con is not None and rng.random() < 0.35:
+                        # installed through the keyword of the very Step that runs the next iteration
+                        ops.append({'op': 'step', 'n': rng.randint(1, 3), 'constraint_kw': con})
+                    else:
+                        ops.append({'op': 'set', 'what': 'constraint', 'arg': con})
             elif what == 'bounds':
-                if rng.random() < 0.2:
+                if rng.random() < 0.2 and bounds is not None:
+                    # switch the ranges off, run a little, and (half of the time) switch the very same ranges on again
+                    last_box = dict(bounds)
+                    bounds = None
+                    ops.append({'op': 'set', 'what': 'bounds', 'arg': None})
+                    if rng.random() < 0.6:
+                        ops.append({'op': 'step', 'n': rng.randint(1, 4)})
+                        if con is not None and not gen.compatible(con, (last_box['lo'], last_box['hi'])):
+                            con = None; ops.append({'op': 'set', 'what': 'constraint', 'arg': None})
+                        bounds = last_box
+                        ops.append({'op': 'set', 'what': 'bounds', 'arg': dict(last_box)})
+                        ops.append({'op': 'step', 'n': rng.randint(1, 4)})
+                elif rng.random() < 0.2:
                     bounds = None
                     ops.append({'op': 'set', 'what': 'bounds', 'arg': None})
                 else:
@@ -327,5 +347,6 @@ def valid_solver_plan(plan):
             elif op['what'] == 'constraint':
                 con = op.get('arg')
         elif op['op'] in ('step', 'solve'):
+            if 'constraint_kw' in op: con = op['constraint_kw']
             if not gen.compatible(con, box): return False
     return True
